@@ -239,6 +239,9 @@ def run(repo: Repo, rep: Report, tier: str) -> None:
     from .c07 import nesting_rule
 
     nesting_rule(repo, rep, "C10.R14")
+    from .c13 import parser_fold_rule
+
+    parser_fold_rule(repo, rep, "C10.R15")
 def unary_marking_rule(repo: Repo, rep: Report, rid: str, max_len: int) -> None:
     rep.rule(rid, f"unary-minus marking, bounded-exhaustive: Expression._mark_unary_minus interpreted on every token list up to length {max_len} over "
                   "{-, ~, (, ), number, +, <<} marks a '-' as unary exactly when it starts the list or follows '(' or an operator (a '-' just marked "
